@@ -59,6 +59,8 @@ def draw_instant(rng):
         us = int((base - EPOCH).total_seconds()) * 10 ** 6 + int(rng.integers(0, 10 ** 6))
     else:
         us = int(rng.integers(0, 3 * 86400 * 10 ** 6))
+        if rng.uniform() < 0.25:
+            us = 0  # the epoch itself: 0, 0.0 and datetime64(0) are instants, not "missing"
     return kind, us
 
 
